@@ -467,6 +467,15 @@ pub fn apply(op: &Op, obj: &mut Object, m: &mut Model, fresh: &mut Fresh) -> Res
 /// Buckets whose positions were not in increasing order (noted in the evidence, not a violation).
 pub static BUCKET_ORDER_ANOMALIES: std::sync::atomic::AtomicU64 = std::sync::atomic::AtomicU64::new(0);
 
+/// True once every sixteen calls (per thread).
+fn miri_sample() -> bool {
+	thread_local!(static N: std::cell::Cell<u32> = const { std::cell::Cell::new(0) });
+	N.with(|n| {
+		n.set(n.get().wrapping_add(1));
+		n.get() % 16 == 1
+	})
+}
+
 pub struct StateStats {
 	pub queries: u64,
 	pub capacity: usize,
@@ -525,8 +534,9 @@ pub fn check_state(obj: &Object, m: &Model) -> Result<StateStats, String> {
 		if got != scan {
 			return Err(format!("get_entries_with_index({:?}) = {:?}, linear scan finds {:?}", k, got, scan));
 		}
-		if pos.len() >= 2 {
+		if pos.len() >= 2 && (!cfg!(miri) || miri_sample()) {
 			// every way of consuming the lookup iterators must agree (nth, skip, step_by, count, last, size_hint)
+			// (under the interpreter: on one state in sixteen, the protocol costs seconds there)
 			queries += crate::monitor::check_iter(&format!("indexes_of({:?})", k), &|| obj.indexes_of(k), &pos)?;
 			queries += crate::monitor::check_iter_ord(&format!("indexes_of({:?})", k), &|| obj.indexes_of(k), &|i: usize| i)?;
 			queries += crate::monitor::check_iter_ord(&format!("get({:?})", k), &|| obj.get(k), &|v: &Value| v as *const Value as usize)?;
